@@ -31,6 +31,7 @@ fn property_on_step(prop: &str, before: &Url, op: &Op, after: &Url, status: &str
         "C03" => prop_c03(after, Some(before)).or_else(|| if prop_c02(after).is_none() { prop_c03_roundtrips(after) } else { None }),
         "C05" => prop_c05(after),
         "C06" => prop_c06(before, op, after, status),
+        "C15" => prop_c15_url(before, op, after),
         _ => None,
     }
 }
